@@ -886,7 +886,7 @@ func LoadContractFile(path string, trusted bool) (*ContractSet, error) {
 						c.Props = fs.Props
 					}
 					fs.Clauses = append(fs.Clauses, c)
-				case "modifies", "cases", "havoc", "loopmodifies", "frame", "event", "replay", "at", "tag", "preserves":
+				case "modifies", "cases", "havoc", "loopmodifies", "frame", "event", "replay", "at", "tag", "preserves", "uses":
 					if c.Props == nil {
 						c.Props = fs.Props
 					}
